@@ -281,11 +281,12 @@ pub fn gen_hs_kind(t: &mut Tape, kind: usize, budget: usize) -> MHs {
         5 => MHs::EndOfEarlyData,
         6 => MHs::HelloRetryRequest { version: t.u16b(), cipher: t.u16b(), ext: gen_opt_ext(t, b) },
         7 => {
-            let n = t.small(20);
+            let n = t.count((b / 3).min(20000));
             let mut chain = Vec::new();
             let mut left = b;
-            for _ in 0..n {
-                let c = t.blob(left.min(3000));
+            for i in 0..n {
+                // long chains are made of tiny entries
+                let c = if n > 20 { vec![i as u8; i % 3] } else { t.blob(left.min(3000)) };
                 left = left.saturating_sub(c.len() + 3);
                 chain.push(c);
             }
@@ -296,11 +297,11 @@ pub fn gen_hs_kind(t: &mut Tape, kind: usize, budget: usize) -> MHs {
             let nt = t.small(255);
             let types = t.bytes(nt);
             let sigalgs = if t.bool() { Some(gen_u16_list(t, 300.min(b / 2))) } else { None };
-            let n = t.small(8);
+            let n = t.count((b / 4).min(5000));
             let mut cas = Vec::new();
             let mut left = b;
-            for _ in 0..n {
-                let c = t.blob(left.min(600));
+            for i in 0..n {
+                let c = if n > 8 { vec![i as u8; i % 2] } else { t.blob(left.min(600)) };
                 left = left.saturating_sub(c.len() + 2);
                 cas.push(c);
             }
@@ -503,7 +504,10 @@ pub fn gen_ext_known(t: &mut Tape, idx: usize, budget: usize) -> MExt {
     let b = budget.min(65535);
     match KNOWN_EXT_TYPES[idx] {
         0 => {
-            let n = t.small(5);
+            let n = t.count((b / 4).min(4000));
+            if n > 5 {
+                return MExt::Sni((0..n).map(|i| ((i % 2) as u8, vec![b'a'; i % 2])).collect());
+            }
             MExt::Sni((0..n).map(|_| (if t.chance(200) { 0 } else { t.u8() }, if t.chance(90) { t.utf8_text(b.min(600)) } else { t.small_blob(b.min(300)) })).collect())
         }
         1 => MExt::MaxFragmentLength(t.u8()),
@@ -513,7 +517,10 @@ pub fn gen_ext_known(t: &mut Tape, idx: usize, budget: usize) -> MExt {
         13 => MExt::SignatureAlgorithms(gen_u16_list(t, (b.saturating_sub(2) / 2).min(200))),
         15 => MExt::Heartbeat(t.u8()),
         16 => {
-            let n = t.small(6);
+            let n = t.count((b / 3).min(6000));
+            if n > 6 {
+                return MExt::Alpn((0..n).map(|i| vec![b'h'; i % 2]).collect());
+            }
             MExt::Alpn((0..n).map(|_| if t.chance(90) { t.utf8_text(b.min(255)) } else { t.small_blob(b.min(255) / 2) }).collect())
         }
         18 => MExt::Sct(if t.chance(80) { None } else { Some(t.small_blob(b.saturating_sub(2).min(500))) }),
@@ -535,7 +542,10 @@ pub fn gen_ext_known(t: &mut Tape, idx: usize, budget: usize) -> MExt {
         44 => MExt::Cookie(t.blob(b.min(300))),
         45 => MExt::PskExchangeModes(t.small_blob(b.saturating_sub(1).min(255))),
         48 => {
-            let n = t.small(4);
+            let n = t.count((b / 4).min(4000));
+            if n > 4 {
+                return MExt::OidFilters((0..n).map(|i| (vec![1u8; i % 2], vec![])).collect());
+            }
             MExt::OidFilters((0..n).map(|_| (t.small_blob(b.min(60) / 2), t.small_blob(b.min(200) / 2))).collect())
         }
         49 => MExt::PostHandshakeAuth,
@@ -706,15 +716,21 @@ pub fn gen_record_of(t: &mut Tape, kind: usize) -> MRecord {
     let version = gen_version(t);
     match kind {
         0 => {
-            let n = 1 + t.small(11);
+            let n = 1 + t.count(RECORD_CAP - 1);
             MRecord { ctype: 0x14, version, msgs: vec![MMsg::Ccs; n], padding: vec![] }
         }
         1 => {
-            let n = 1 + t.small(11);
+            let n = 1 + t.count(RECORD_CAP / 2 - 1);
             let msgs = (0..n).map(|_| MMsg::Alert(if t.chance(128) { t.pick(&[1u8, 2]) } else { t.u8() }, t.u8())).collect();
             MRecord { ctype: 0x15, version, msgs, padding: vec![] }
         }
         2 => {
+            if t.chance(10) {
+                // hundreds or thousands of minimal handshake messages in one record
+                let n = 1 + t.count(RECORD_CAP / 5 - 1);
+                let msgs = (0..n).map(|i| MMsg::Hs(match i % 4 { 0 => MHs::HelloRequest, 1 => MHs::ServerDone(vec![]), 2 => MHs::KeyUpdate(i as u8), _ => MHs::EndOfEarlyData })).collect();
+                return MRecord { ctype: 0x16, version, msgs, padding: vec![] };
+            }
             let msgs = gen_hs_list(t, 6, RECORD_CAP).into_iter().map(MMsg::Hs).collect();
             MRecord { ctype: 0x16, version, msgs, padding: vec![] }
         }
@@ -942,6 +958,11 @@ pub fn gen_dtls_record(t: &mut Tape) -> MDtlsRecord {
             MDtlsRecord { ctype: 0x15, version, epoch, seq, msgs: (0..n).map(|_| MDtlsMsg::Alert(t.u8(), t.u8())).collect() }
         }
         _ => {
+            if t.chance(8) {
+                let n = 1 + t.count(RECORD_CAP / 12 - 1);
+                let msgs = (0..n).map(|i| MDtlsMsg::Hs(MDtlsHs { msg_type: 11, length: 100, message_seq: i as u16, fragment_offset: 1 + i as u32, fragment_length: 0, body: MDtlsBody::Fragment(vec![]) })).collect();
+                return MDtlsRecord { ctype: 0x16, version, epoch, seq, msgs };
+            }
             let n = 1 + t.small(3);
             let mut msgs = Vec::new();
             let mut left = RECORD_CAP;
@@ -1102,6 +1123,11 @@ pub fn gen_sct(t: &mut Tape, budget: usize) -> MSct {
 }
 
 pub fn gen_sct_list(t: &mut Tape) -> Vec<MSct> {
+    if t.chance(8) {
+        // many minimal SCTs (49 bytes each), up to what the u16 list length can hold
+        let n = t.pick(&[255usize, 256, 257, 1024, 1025, 1336, 1337]);
+        return (0..n).map(|i| MSct { version: 0, id: vec![i as u8; 32], timestamp: i as u64, extensions: vec![], hash: (i % 7) as u8, sign: (i % 5) as u8, alg_present: true, signature: vec![] }).collect();
+    }
     let n = t.small(8);
     let mut left = 65535usize;
     let mut v = Vec::new();
